@@ -31,12 +31,15 @@ def section(kind, k):
 def check(run):
     q = run.quick()
     # design level
-    kl = dict(Threads=tla_set([1, 2]), Keys=tla_set([1, 2]), Kinds='{"lock","try","rlock","tryr"}', Racy="FALSE", MaxObj=3)
+    kl = dict(Threads=tla_set([1, 2]), Keys=tla_set([1, 2]), Kinds='{"lock","try","rlock","tryr"}', Racy="FALSE", MaxObj=3, ClearMode='"quiet"')
     model_check(run, "keyed", "KeyedLock", kl, invariants=KL_INV, label="2 goroutines, 2 keys")
     bad = model_check(run, "keyed", "KeyedLock", dict(kl, Racy="TRUE"), invariants=["Exclusion"], expect_violation=True, label="racy lookup")
     if not bad.get("violated"):
         raise Inconclusive("KeyedLock.tla: the check-then-act lookup variant should violate Exclusion but TLC found nothing (vacuous model?)")
     run.notes.append("KeyedLock.tla with Racy=TRUE (Load-then-Store lookup) violates Exclusion as expected: %s" % bad["violated"])
+    # spec growth beyond the property: ClearKey while the key is held is a hazard of the API (two holders after LockKey; ClearKey; LockKey)
+    haz = model_check(run, "keyed", "KeyedLock", dict(kl, ClearMode='"any"'), invariants=["Exclusion"], expect_violation=True, label="ClearKey while held (hazard)")
+    run.notes.append("spec note (not a property): ClearKey while a key is held breaks per-key exclusion in the model: %s" % (haz.get("violated") or "NOT REPRODUCED"))
     if not q:
         model_check(run, "keyed", "KeyedLock", dict(kl, Threads=tla_set([1, 2, 3]), MaxObj=4), invariants=KL_INV, label="3 goroutines, 2 keys")
     # the lookup the keyed mutexes rely on: LoadOrStore racing LoadOrStore/Delete on sync2.Map (C04's model, restricted call kinds)
